@@ -17,7 +17,7 @@ ASSUMPTIONS = ['cKDTree.query contract: the k nearest by Euclidean distance in i
                'neighbours reported as (inf, n), squeezed output for k=1']
 REQUIRED_CLASSES = ['some-match', 'contested-candidate', 'tie', 'bound-excludes']
 EXPECTED_LABELS = ['never-raises', 'equal-length-in-range', 'one-to-one', 'within-k-nearest', 'within-distance-bound']
-BUDGET_S = {'quick': 150, 'thorough': 1200}
+BUDGET_S = {'quick': 150, 'thorough': 900}
 OPTS = {'quick': {'sample_every': 13}, 'thorough': {'sample_every': 29}}
 
 
